@@ -1,5 +1,6 @@
 # C02 - fatal error iff not well-formed (lexical layer)
-CLAIMS = {
+CLAIMS = {'names_1_0 / names_1_1': 'XMLChar1_0/1_1::isValidNCName/isValidName/isValidQName on every (pointer,count) buffer of 1..3 units in an exactly sized object: verdict = Name/NCName/QName productions, nothing read beyond count',
+ 
  'chartables_1_0 / chartables_1_1': 'for every 16-bit code unit and every unit pair, XMLChar1_0/XMLChar1_1 accessors (real tables lowered from source, as exact decision trees) '
      'equal the productions [2] Char, [2a] RestrictedChar, [3] S, [4] NameStartChar, [4a] NameChar and their NCName variants',
  'severity': 'for every code value the warning/error/fatal partition is exact and the named well-formedness codes are fatal',
@@ -12,6 +13,8 @@ HARNESSES = [
       const_tables=[T10, T11], unwind=2),
  dict(name='chartables_1_1', entry='harness_chartables', srcs=['C02/chartables.cpp'], tus=['util/XMLChar.cpp'], defs={'all': {'VERSION': 11}},
       const_tables=[T10, T11], unwind=2),
+ dict(name='names_1_0', entry='harness_names', srcs=['C02/names.cpp'], tus=['util/XMLChar.cpp', 'util/XMLString.cpp'], defs={'all': {'VERSION': 10}}, const_tables=[T10, T11], unwind=6),
+ dict(name='names_1_1', entry='harness_names', srcs=['C02/names.cpp'], tus=['util/XMLChar.cpp', 'util/XMLString.cpp'], defs={'all': dict({'VERSION': 11}, **({'ONLYFN': int(__import__('os').environ['VX_ONLYFN'])} if __import__('os').environ.get('VX_ONLYFN') else {}))}, const_tables=[T10, T11], unwind=6),
  dict(name='severity', entry='harness_severity', srcs=['C02/severity.cpp'], tus=[], unwind=2),
 ]
 LEVEL_TEXT = ('Bounded model checking of the lexical layer every well-formedness verdict rests on: the XML 1.0/1.1 character-class tables (lowered from the real source, '
